@@ -504,13 +504,14 @@ def gen_ppp6(rng):
     forwardDHCPv6 (ResolveV6 on the session's allocation context, local provider, bindDHCPv6 / unbindDHCPv6), PPP
     terminate followed by the component's releaseDHCPv6Lease, re-SOLICIT after a RELEASE (the context keeps its
     address), AAA static IPv6 addresses / prefixes, other subscribers connecting in between.
-    Domain: the pools are larger than the number of subscribers, so ResolveV6 always resolves - the unresolved path of
-    /repo HEAD (finding pppoe-dhcp6-unresolved-answered-by-provider) is answered from the provider's private pool
-    view, which the model does not reproduce; fixes/C02_pppoe_dhcp6_no_answer_when_unresolved.witness holds that case."""
+    The pools may be smaller than the number of subscribers and a RELEASE may come at any time, so ResolveV6 also fails
+    (pool exhausted; the context's address / prefix meanwhile given to somebody else): such a SOLICIT / REQUEST is
+    not answered and records nothing (/repo e76425b), a RELEASE is still handed to the provider."""
     ns = rng.randint(2, 3)
     a6 = V6BASE + (5 << 64) + 0x40
     pd = V6BASE + (0x300 << 64)
-    toks = ["P6", "3", "0", "0", str(a6), str(a6 + ns + 1), "PD", "4", "0", "0", str(pd), "62", "64"]
+    n6 = rng.choice([1, 2, ns, ns + 2])
+    toks = ["P6", "3", "0", "0", str(a6), str(a6 + n6 - 1), "PD", "4", "0", "0", str(pd), rng.choice(["62", "63"]), "64"]
     if rng.random() < 0.5:
         toks += ["P4", "1", "0", "0", str(V4BASE + 256 * 11 + 1), str(V4BASE + 256 * 11 + ns + 1), "-"]
         toks += ["G", "0", "0", "0"]
@@ -526,7 +527,7 @@ def gen_ppp6(rng):
         c = rng.random()
         if pending and (c < 0.3 or not live):
             k = pending.pop(0)
-            st6 = str(a6 + ns + 1) if rng.random() < 0.15 and k == order[0] else "-"
+            st6 = str(a6 + n6 - 1) if rng.random() < 0.15 and k == order[0] else "-"
             ops.append("PA %d 0 - %s - - - -" % (k, st6))
             live.append(k)
         elif live and c < 0.55:
@@ -537,10 +538,7 @@ def gen_ppp6(rng):
             k = rng.choice(live)
             ops.append("PV %d" % k)
             have6.add(k)
-        elif live and c < 0.9 and not pending and all(k in have6 for k in live):
-            # a RELEASE frees the address while the context keeps it: a subscriber that connects afterwards is given it
-            # (lowest free first; likewise a prefix allocated by another subscriber's first SOLICIT) and the releaser's
-            # next SOLICIT is unresolved - outside the domain, see above
+        elif live and c < 0.9:
             ops.append("PR %d" % rng.choice(live))
         elif live and c >= 0.9:
             k = live.pop(rng.randrange(len(live)))
